@@ -121,7 +121,9 @@ def reference(source: str) -> dict[str, dict]:
             conditional = parent_kind in ("If", "ExceptHandler")
             if isinstance(st, (ast.FunctionDef, ast.AsyncFunctionDef)) and in_init is None:
                 decos = [ast.unparse(d.func if isinstance(d, ast.Call) else d) for d in st.decorator_list]
-                is_prop = any(d in ("property", "functools.cached_property", "cached_property") for d in decos)
+                # a decorator *name* means the builtin only where nothing has re-bound it: in the enclosing class body or at module level, so far
+                is_prop = any(d in ("property", "functools.cached_property", "cached_property") and f"{scope}.{d.split('.')[0]}" not in out and f"m.{d.split('.')[0]}" not in out
+                              for d in decos)
                 first = st.decorator_list[0].lineno if st.decorator_list else st.lineno
                 info = {"kind": "Attribute" if is_prop else "Function", "lineno": first, "endlineno": st.end_lineno, "docstring": _own_doc(st), "runtime": not guarded,
                         "node": st}
@@ -340,6 +342,14 @@ def corpus(thorough: bool) -> list[tuple[str, str]]:
     seq = {**{k_: v_ for k_, v_ in DEFS.items() if k_ in ("function", "async function", "decorated function", "class", "assignment")}, **{k_: v_ for k_, v_ in CLASS_ONLY.items() if k_ != "init attributes"}}
     for (d1, t1), (d2, t2) in itertools.product(seq.items(), repeat=2):
         out.append((f"sequence|{d1} then {d2}", render("top level", t1.format(n="x") + "\n" + t2.format(n="y"), in_class=True)))
+    # one decorator text, two meanings in one module: the builtin in one class, a name the class (or the module, later) binds itself in another
+    doc_ = '"""Module doc."""\nfrom typing import TYPE_CHECKING\n'
+    plain_ = "class Plain:\n    @property\n    def value(self):\n        return 1\n"
+    shadow_ = "class Shadowing:\n    def property(f):\n        return f\n    @property\n    def value(self):\n        return 2\n"
+    rebound_ = "def property(f):\n    return f\nclass Later:\n    @property\n    def value(self):\n        return 3\n"
+    out.append(("shadow|builtin property, then a class that binds `property` itself", doc_ + plain_ + shadow_))
+    out.append(("shadow|a class that binds `property` itself, then the builtin", doc_ + shadow_ + plain_))
+    out.append(("shadow|builtin property, then `property` re-bound at module level", doc_ + plain_ + rebound_))
     # instance attributes re-assigned in __init__ (plain and conditional), with and without a class-level definition
     head = '"""Module doc."""\nfrom typing import TYPE_CHECKING\nclass Outer:\n'
     for first, (cname, ctx_t) in itertools.product(("class level", "in __init__", "none"), [(c, t) for c, t in CONTEXTS.items() if c in ("top level", "if body", "else branch", "except handler", "try body", "with block")]):
